@@ -99,6 +99,14 @@ class SigmaRuleBase:
         """
         errors = []
 
+        if not isinstance(rule, dict):  # a document that is no map can't be a rule at all
+            errors.append(
+                sigma_exceptions.SigmaTypeError("Sigma rule must be a YAML map", source=source)
+            )
+            if not collect_errors:
+                raise errors[0]
+            rule = {}
+
         def get_rule_as_date(name: str, exception_class: type[SigmaError]) -> date | None:
             """
             Accepted string based date formats are in range 1000-01-01 .. 3999-12-31:
@@ -145,12 +153,14 @@ class SigmaRuleBase:
         if rule_id is not None:
             try:
                 rule_id = UUID(rule_id)
-            except ValueError:
+            except (ValueError, AttributeError, TypeError):
                 errors.append(
                     sigma_exceptions.SigmaIdentifierError(
                         "Sigma rule identifier must be an UUID", source=source
                     )
                 )
+                if not isinstance(rule_id, str):  # not usable as identifier in any way
+                    rule_id = None
 
         # Rule name
         rule_name = rule.get("name")
@@ -161,6 +171,7 @@ class SigmaRuleBase:
                         "Sigma rule name must be a string", source=source
                     )
                 )
+                rule_name = None
             else:
                 if rule_name == "":
                     errors.append(
